@@ -239,6 +239,7 @@ func init() {
 			c.ServicePositions("C20")
 			c.ScatterIndexDiscipline("C20")
 			c.ExplicitPanics("C20")
+			c.ResultBeforeErrorCheck("C20")
 			c.GateTypestate("C20")
 			c.LockerInternals("C20")
 			c.ContributionRules("C20")
